@@ -299,19 +299,9 @@ def load_errors(ctx):
     good, hit = unreachable_without(df, none_oks, removed_edges=edges)
     ctx.require(R6, bool(edges) and good, where(df, none_oks[0]) if none_oks else "-", "`no stored account` is answered only when the account file does not exist", ["do_fetch", "none-on-error"])
     # `the account file does not exist` means exactly that: check_files answers false only on the false edge of an existence test
-    # (is_file/exists) of the path — an empty, short or otherwise odd file still EXISTS and must be read (and fail loudly)
-    cf = prog.must_body("acmed::storage::check_files")
-    falses = assigns_const_to(cf, 0, lambda c: c.get("bool") is False)
-    ex = [c for c in cf.calls if c.bb in cf.live_blocks() and (c.name or "").rsplit("::", 1)[-1] in ("is_file", "exists", "try_exists")]
-    ex_false = []
-    for c in ex:
-        t, f = call_true_false_edges(cf, c)
-        ex_false += f
-    # (a path that cannot even be computed — get_file_path's error — has no file either)
-    path_err = [(t["bb"], tg) for c in cf.calls_to("acmed::storage::get_file_path") for t in try_edges(cf, [c.dest["l"]]) for tg in t["err"]]
-    good, hit = unreachable_without(cf, falses, removed_edges=ex_false + path_err)
-    ctx.require(R6, bool(falses) and bool(ex_false) and good, where(cf, (hit or falses or [0])[0]), "storage::check_files reports `missing` only when a file does not exist (no size/content criterion)",
-                ["storage::check_files", "exists-only"])
+    # of the path — an empty, short or otherwise odd file still EXISTS and must be read (and fail loudly); shared with C06.R1
+    from .storage_common import check_files_rules
+    check_files_rules(ctx, R6)
     afe = prog.must_body("acmed::storage::account_files_exists")
     ctx.require(R6, bool(afe.calls_to("acmed::storage::check_files")), "%s:%s" % (afe.file, afe.line), "account_files_exists is check_files on the account file", ["storage::account_files_exists", "definition"])
     for c in df.calls_to("bincode::deserialize"):
